@@ -14,7 +14,9 @@ RULE = ('cases: (a) every sampled cell (real and imaginary part) of transform(x)
         '(e) itransform(transform(x)) = x - mean - Nyquist component, n up to 1024, pure rational arithmetic in Coq, both implementations; '
         '(f) linearity and (g) agreement of the two implementations cell by cell on implementation outputs; '
         '(h) get_max_stockwell_freq (Signal / AccSignal, the cached swtf = transform(values)) and get_max_tifq_vals_freq against argmax of re^2+im^2 of the same matrix and the axis k/(N dt) '
-        '(columns with near-ties skipped as fragile); (i) TEST (not a theorem): trace of on-grid sinusoids over the middle half of the record; '
+        '(columns with near-ties skipped as fragile); (h\') the same on ONE object with a history: first answer obtained (swtf assigned or built by the call), the returned trace '
+        'overwritten in place by the caller, reset_values(new record, possibly another length) + swtf = transform(values) (or del swtf: rebuilt = transform(values now) bit for bit), '
+        'second and third answers against argmax / axis of the swtf the object holds now; (i) TEST (not a theorem): trace of on-grid sinusoids over the middle half of the record (every third one on an object that already answered for another sinusoid); '
         'non-trivial = record / matrix not identically zero')
 TRUSTED = [
     'Coq 8.16.1 kernel + vm_compute; Coq Interval tactic (proofs checked by the kernel at Qed)',
@@ -107,6 +109,35 @@ def impl_max_freq(cls, x, dt):
     return np.asarray(sig.swtf), mf, np.array(sig.values, dtype=float)
 
 
+def impl_max_freq_history(cls, x1, x2, dt, preassign, refresh, scribble):
+    """get_max_stockwell_freq asked twice on ONE object whose record (and stored transform) is replaced in between:
+      sig = cls(x1, dt); [sig.swtf = transform(sig.values)]; f1 = get_max_stockwell_freq(sig); [f1[:] = -1: the caller owns what it got]
+      sig.reset_values(x2); sig.swtf = transform(sig.values)  (refresh = 'assign')  |  del sig.swtf  (refresh = 'del': the next call rebuilds it)
+      f2 = get_max_stockwell_freq(sig); [f2[:] = -2]; f3 = get_max_stockwell_freq(sig)
+    every answer is the trace of the transform the object holds at that moment.
+    Returns (first trace as returned, swtf now, second trace, third trace, values now)"""
+    import eqsig
+    from eqsig import stockwell as sw
+    sig = getattr(eqsig, cls)(np.array(x1, dtype=float), dt)
+    if preassign:
+        sig.swtf = sw.transform(sig.values)
+    f1 = sw.get_max_stockwell_freq(sig)
+    first = np.array(f1, dtype=float)
+    if scribble and isinstance(f1, np.ndarray) and f1.size:
+        f1[...] = -1.0
+    sig.reset_values(np.array(x2, dtype=float))
+    if refresh == 'assign':
+        sig.swtf = sw.transform(sig.values)
+    else:
+        del sig.swtf
+    f2 = sw.get_max_stockwell_freq(sig)
+    second = np.array(f2, dtype=float)
+    if scribble and isinstance(f2, np.ndarray) and f2.size:
+        f2[...] = -2.0
+    third = np.array(sw.get_max_stockwell_freq(sig), dtype=float)
+    return first, np.array(sig.swtf), second, third, np.array(sig.values, dtype=float)
+
+
 def impl_max_tifq(re, im, dt):
     from eqsig import stockwell as sw
     m = np.array(re, dtype=float) + 1j * np.array(im, dtype=float)
@@ -116,6 +147,9 @@ def impl_max_tifq(re, im, dt):
 def replay_call(rp):
     a = rp.get('args', {})
     f = rp.get('function', '')
+    if 'get_max_stockwell_freq' in f and 'second_values' in a:
+        return impl_max_freq_history(a.get('cls', 'Signal'), a['first_values'], a['second_values'], a['dt'], a['swtf_assigned_before_first_call'],
+                                     a['swtf_after_reset_values'], a['returned_traces_overwritten'])[2]
     if 'get_max_stockwell_freq' in f:
         return impl_max_freq(a.get('cls', 'Signal'), a['values'], a['dt'])[1]
     if 'get_max_tifq' in f:
@@ -482,7 +516,54 @@ def run(rep, rng, tier):
         cases.append(Case(coq, {'function': site, 'args': args, 'impl': {'max_f': mf}}, site,
                           nontrivial=bool(np.any(re != 0) or np.any(im != 0)), klass=site + ('/exact' if ftol == 0 else '/tol')))
 
+    # ---- (h') the same object asked again after its record and stored transform were replaced (reset_values + swtf refreshed / deleted), the
+    #      traces handed out earlier having been overwritten by the caller: every answer is the trace of the transform the object holds NOW
+    n_hist = 12 if quick else 150
+    for k in range(n_hist):
+        exact = k % 2 == 0
+        n1 = rng.randint(2, 16 if quick else 40)
+        n2_ = n1 if k % 3 == 0 else rng.randint(2, 16 if quick else 40)      # the new record may have another length
+        x1, x2 = record(rng, n1, exact), record(rng, n2_, exact)
+        dt = gens.dyadic_dt(rng, 0, 7) if exact else rng.choice([0.01, 0.005, 0.02, 0.1, rng.uniform(1e-3, 0.6)])
+        cls = 'AccSignal' if k % 2 else 'Signal'
+        preassign = rng.random() < 0.6
+        refresh = 'assign' if k % 4 != 3 else 'del'
+        scribble = k % 2 == 0 or rng.random() < 0.3
+        site = 'get_max_stockwell_freq after history'
+        args = {'cls': cls, 'first_values': [float(v) for v in x1], 'second_values': [float(v) for v in x2], 'dt': float(dt),
+                'swtf_assigned_before_first_call': preassign, 'swtf_after_reset_values': refresh, 'returned_traces_overwritten': scribble}
+        r = guarded(impl_max_freq_history, cls, x1, x2, dt, preassign, refresh, scribble)
+        if isinstance(r, ImplError):
+            bad(site, args, r)
+            continue
+        first, sw, second, third, vals = r
+        if sw.ndim != 2 or len(sw) == 0:
+            rep.violation(site, {'function': site, 'args': args, 'impl': {'swtf_shape': list(sw.shape)}})
+            continue
+        if refresh == 'del':      # the transform the call rebuilt is the one of the record the object holds now, bit for bit
+            s0 = guarded(impl_transform, 0, vals)
+            if isinstance(s0, ImplError):
+                bad(site, args, s0)
+                continue
+            if sw.shape != s0.shape:
+                rep.violation(site, {'function': site, 'args': args, 'impl': {'swtf_shape': list(sw.shape), 'transform_shape': list(s0.shape)}})
+                continue
+            cases.append(Case('CAgree %s %s %s %s 0' % (qmat(sw.real), qmat(sw.imag), qmat(s0.real), qmat(s0.imag)),
+                              {'function': site + ' (rebuilt swtf = transform(values now))', 'args': args, 'impl': {'swtf': sw}}, site,
+                              nontrivial=True, klass=site + '/swtf'))
+        if fragile_columns(sw.real, sw.imag):
+            stats['fragile_skipped'] += 1
+            continue
+        P = len(sw)
+        ftol = 0 if (dyadic(dt) and is_pow2(P)) else Fraction(1, 10 ** 15)
+        for which_call, mf in (('second', second), ('third', third)):
+            coq = 'CMaxF %s %s %s %s %s' % (qmat(sw.real), qmat(sw.imag), q(dt), qlist(mf), q(ftol))
+            cases.append(Case(coq, {'function': site, 'args': dict(args, answer=which_call + ' call'),
+                                    'impl': {'first_trace': first, 'max_f': mf, 'swtf_now': sw}}, site, nontrivial=True,
+                              klass=site + '/' + which_call + ('/exact' if ftol == 0 else '/tol')))
+
     # ---- (i) TEST of the clause that is not proved: on-grid sinusoid, middle half of the record
+    #      (every third one on an object that already answered for another sinusoid: record and stored transform replaced in between)
     n_dom = 24 if quick else 300
     for k in range(n_dom):
         if k % 4 == 0:
@@ -502,6 +583,22 @@ def run(rep, rng, tier):
         amp = rng.choice([1.0, rng.uniform(0.1, 20)])
         x = amp * np.cos(2 * np.pi * k0 * np.arange(n) / N + ph)
         cls = 'AccSignal' if k % 2 else 'Signal'
+        if k % 3 == 2 and khi > 2:    # the object first held (and answered for) another on-grid sinusoid
+            k1 = rng.choice([j for j in range(2, khi + 1) if j != k0])
+            x1 = rng.uniform(0.1, 20) * np.cos(2 * np.pi * k1 * np.arange(n) / N + rng.uniform(0, 6.28))
+            pre, refresh, scr = rng.random() < 0.5, rng.choice(['assign', 'assign', 'del']), rng.random() < 0.5
+            site = 'dominant:test after history'
+            args = {'cls': cls, 'first_values': [float(v) for v in x1], 'second_values': [float(v) for v in x], 'dt': float(dt), 'k_first': k1, 'k0': k0, 'N': N,
+                    'swtf_assigned_before_first_call': pre, 'swtf_after_reset_values': refresh, 'returned_traces_overwritten': scr}
+            r = guarded(impl_max_freq_history, cls, x1, x, dt, pre, refresh, scr)
+            if isinstance(r, ImplError):
+                bad(site, args, r)
+                continue
+            mf = r[3] if scr else r[2]
+            stats['dominant_tests'] += 1
+            coq = 'CDom (%d)%%Z (%d)%%Z %s (%d)%%Z %s %s' % (N, k0, q(dt), len(mf), qlist(mf[N // 4:(3 * N) // 4]), q(Fraction(1, 10 ** 12)))
+            cases.append(Case(coq, {'function': 'get_max_stockwell_freq', 'args': args, 'impl': {'max_f': mf}}, site, nontrivial=True, klass=site))
+            continue
         r = guarded(impl_max_freq, cls, x, dt)
         site = 'dominant:test'
         args = {'cls': cls, 'values': [float(v) for v in x], 'dt': float(dt), 'k0': k0, 'N': N}
